@@ -26,7 +26,7 @@ EXPLANATION = ('Failure-atomicity and guard rules on the CFG of FeatureRef::appl
                'value from readFeats, a cast-chain typing rule on the setting comparison, copy-constructor use at the two clone sites, '
                'the language match, and the shared tag-normalisation rule.  How need_bits are packed into 32-bit chunks and which bytes '
                'a label has are value-level and not decided.')
-FLOORS = {'NOSTRADDLE': 1, 'FAILATOMIC': 6, 'READGUARD': 1, 'NOSETTINGS': 1, 'SETTINGZEXT': 1, 'CLONE': 3, 'LANGMATCH': 6, 'INDEXTESTS': 1, 'TAGNORM': 3, 'NARROWREAD': 1, 'LABELENC': 4}
+FLOORS = {'NOSTRADDLE': 1, 'FAILATOMIC': 6, 'READGUARD': 1, 'NOSETTINGS': 1, 'SETTINGZEXT': 1, 'CLONE': 3, 'LANGMATCH': 7, 'INDEXTESTS': 1, 'TAGNORM': 3, 'NARROWREAD': 1, 'LABELENC': 4}
 
 
 def failatomic(run, fx):
@@ -441,6 +441,17 @@ def langfresh(run, fx):
 def run(run):
     fx = run.facts('Q0')
     langfresh(run, fx)
+    from . import ordint as O_
+    cf_ = fx.one('graphite2::SillMap::cloneFeatures')
+    inst_ = 'cloneFeatures finds the language in any table order (interpreted)'
+    try:
+        cases_, bad_ = langexec(run, fx)
+        if bad_:
+            run.violated('LANGMATCH', inst_, cf_.where(), bad_)
+        else:
+            run.held('LANGMATCH', inst_, cf_.where(), '%d abstract executions' % cases_)
+    except O_.AnalysisBroken as ex:
+        run.broken('LANGMATCH', inst_, str(ex), cf_.where())
     lenunit(run, fx)
     idorder(run, fx)
     failatomic(run, fx)
@@ -458,3 +469,36 @@ def run(run):
     c11.decodeexact(run, fx, 'LABELENC')     # 'labels ... identical in all three encodings': the converters between them are exact on a grid of scalar values (shared with C11)
     from . import c13
     c13.narrowread(run, fx)        # a language tag / feature id / setting read from Feat or Sill is not truncated on its way into the map (shared with C01, C13)
+
+
+def langexec(run, fx):
+    """LANGMATCH by bounded execution: SillMap::cloneFeatures is interpreted on every ORDER of up to 3 language entries (the Sill table is
+    stored in file order; nothing sorts it) and every query -- each stored tag, tags below / between / above them, and 0: it returns a
+    copy of the entry with that tag, and a copy of the font's defaults for any other tag."""
+    import itertools
+    from . import ordint as O
+    fn = fx.one('graphite2::SillMap::cloneFeatures')
+    PSM, PLF, PFM = 'graphite2::SillMap::', 'graphite2::SillMap::LangFeaturePair::', 'graphite2::FeatureMap::'
+    tags = (5, 9, 13)
+    cases = 0
+    for n in range(0, 4):
+        for perm in itertools.permutations(tags, n):
+            for q in (0, 1, 5, 7, 9, 11, 13, 20):
+                ents = O.Vec()
+                for t in perm:
+                    ents.items.append(O.Rec({PLF + 'm_lang': t, PLF + 'm_pFeatures': O.Ptr(O.Rec({'#id': 'lang %d' % t}))}))
+                fm = O.Rec({PFM + 'm_defaultFeatures': O.Rec({'#id': 'defaults'})})
+                sm = O.Rec({PSM + 'm_langFeats': O.It(ents, 0), PSM + 'm_numLanguages': n, PSM + 'm_FeatureMap': fm})
+                it = O.Interp(fx)
+                it.MAX_STEPS = 2000
+                cases += 1
+                desc = 'Sill entries in file order %s, language %d' % (list(perm), q)
+                try:
+                    r = it.call(fn, sm, [q])
+                except O.Violation as v:
+                    return cases, '%s: %s (%s)' % (desc, v.what, v.loc)
+                got = r.rec.get('#id') if isinstance(r, O.Ptr) and r.rec is not None else None
+                want = 'lang %d' % q if q in perm else 'defaults'
+                if got != want:
+                    return cases, '%s: gr_face_featureval_for_lang gets a copy of %s, expected %s' % (desc, got or 'nothing', want)
+    return cases, None
